@@ -509,6 +509,10 @@ def c19(run):
                     again += 1
             return bool(bad1), dict(record=json.loads(line), interference_in_reruns="%d/3" % again)
         run.candidate(key, "a concurrently run session observed something else than the same session alone", recheck)
+    if any(k.startswith("solo/") for k, _, _ in run.violations):
+        # not even a single connection on its own gets through: the remaining stages would only wait for
+        # the watchdogs of broken sessions
+        return run.finish("model_checking")
     # the same driver under the race detector; then cold starts: processes whose very first sessions
     # run concurrently (lazily initialised package state), plain and under the race detector
     rb = run.build(race=True, name="wsverif-race")
